@@ -1019,6 +1019,11 @@ func ruleLifo(c *engine.Context) *report.Rule {
 								appends = true
 								pushes = append(pushes, call)
 							}
+							// a helper that returns the worklist it was given, possibly with one more element
+							if sc := call.Call.StaticCallee(); sc != nil && isPushHelper(p, sc, W.Type()) {
+								appends = true
+								pushes = append(pushes, call)
+							}
 						}
 					}
 				}
@@ -1153,4 +1158,57 @@ func sameVar(x, y ssa.Value) bool {
 		}
 	}
 	return stores == 1
+}
+
+// isPushHelper: fn(list, …) returns, on every path, the list it was given or that list with
+// elements appended (a conditional push).
+func isPushHelper(p *load.Program, fn *ssa.Function, listT types.Type) bool {
+	if fn == nil || fn.Blocks == nil || !p.InPkg(fn) || len(fn.Params) == 0 || fn.Signature.Results().Len() != 1 {
+		return false
+	}
+	if !types.Identical(fn.Signature.Results().At(0).Type(), listT) {
+		return false
+	}
+	var lp *ssa.Parameter
+	for _, pp := range fn.Params {
+		if types.Identical(pp.Type(), listT) {
+			lp = pp
+			break
+		}
+	}
+	if lp == nil {
+		return false
+	}
+	var okV func(v ssa.Value, d int) bool
+	okV = func(v ssa.Value, d int) bool {
+		if d > 4 {
+			return false
+		}
+		switch x := v.(type) {
+		case *ssa.Parameter:
+			return x == lp
+		case *ssa.Call:
+			if bi, isB := x.Call.Value.(*ssa.Builtin); isB && bi.Name() == "append" {
+				return okV(x.Call.Args[0], d+1)
+			}
+		case *ssa.Phi:
+			for _, e := range x.Edges {
+				if !okV(e, d+1) {
+					return false
+				}
+			}
+			return true
+		}
+		return false
+	}
+	n := 0
+	for _, b := range fn.Blocks {
+		if ret, ok := b.Instrs[len(b.Instrs)-1].(*ssa.Return); ok {
+			n++
+			if !okV(ret.Results[0], 0) {
+				return false
+			}
+		}
+	}
+	return n > 0
 }
